@@ -43,8 +43,10 @@ var c10Pads = []string{
 	strings.Repeat("\xc3\xa9", 511) + " ",
 }
 
+const c10InsertDeep = 12 // insert/replace tokens used for the depth-1 programs
+
 var c10InsertQuick = []string{"a", ";", "\n", "(", ")", "{", "}", "\"", "'", "`", "$(", "${", "<<E", "|", "&", "fi", "do", "\\", "\xff"}
-var c10InsertThorough = []string{"a", ";", "\n", "(", ")", "{", "}", "\"", "'", "`", "$(", "${", "$((", "<<E", "|", "&", "&&", ";;", "fi", "do", "done", "then", "esac", "in", "[[", "]]", "))", "\\", "#", "=", "[", "]", "<", ">", "!", "$", " ", "\xff", "\r", "\x00"}
+var c10InsertThorough = []string{"a", ";", "\n", "(", "{", "\"", "'", "`", "$(", "<<E", "\\", "\xff", ")", "}", "${", "$((", "|", "&", "fi", "do", "done", "esac", "#", "\r", "\x00"}
 
 // c10Tokenize splits a program into edit units: runs of [A-Za-z0-9_], runs
 // of blanks, and every other byte on its own (so that dropping one byte of a
@@ -229,23 +231,41 @@ func c10GenCuts(c *vc.Ctx, space synSpace, emit func(origin, src string)) {
 	// the shared syntax space (corpus, grammar, single-gap deviations)
 	genSyn(c, space, func(t synCase) { one("grammar", t.Src) })
 	// whole-program layouts
-	layoutDepth := vc.Pick(c, 1, 2)
-	for _, t := range synt.Templates("S", layoutDepth, layoutDepth >= 2) {
+	deep := map[string]bool{}
+	for _, t := range synt.Templates("S", 1, false) {
+		deep[t] = true
 		for li := range c10Layouts {
 			one("layout", c10Layout(t, li))
+		}
+	}
+	if !c.Quick() {
+		// depth 2 (core contexts): the first three layouts
+		for _, t := range synt.Templates("S", 2, true) {
+			if deep[t] {
+				continue
+			}
+			for li := 0; li < 3; li++ {
+				one("layout", c10Layout(t, li))
+			}
 		}
 	}
 	// pairs of newline-bearing gap alternatives
 	pairDepth := vc.Pick(c, 0, 1)
 	for _, t := range synt.Templates("S", pairDepth, false) {
 		alts := synt.GapAlts(t)
-		if pairDepth > 0 && len(alts) > 8 {
+		if pairDepth > 0 && len(alts) > 6 {
 			continue
 		}
 		for g1 := 0; g1 < len(alts); g1++ {
 			for g2 := g1 + 1; g2 < len(alts); g2++ {
 				for a1 := 0; a1 < alts[g1]; a1++ {
+					if alts[g1] == 3 && a1 != 2 {
+						continue // inline gaps: only the escaped-newline alternative bears a newline
+					}
 					for a2 := 0; a2 < alts[g2]; a2++ {
+						if alts[g2] == 3 && a2 != 2 {
+							continue
+						}
 						one("layout-pair", synt.Render2(t, g1, a1, g2, a2))
 					}
 				}
